@@ -13,6 +13,7 @@ import Proofs.ImplV2Lists
 import Proofs.ImplV1Lists
 import Proofs.ImplV1Beat
 import Proofs.InflateStored
+import Proofs.PrimGen
 
 namespace EngineModel.Properties.C02
 open EngineModel EngineModel.Codec EngineModel.V2 EngineModel.Impl.V2
@@ -210,5 +211,90 @@ theorem C02_unframe_frame (x : Bytes) (h : x.length < 4294967296) : Zlib.unframe
   Zlib.unframe_frame x h
 
 example : ([1, 2, 3] : Bytes).length < 4294967296 := by decide
+
+/-! ## the primitive layer, regenerated from encode_decode_utils.hpp
+
+Every layout above bottoms out in the primitive codecs `Codec.u8/u32le/u32be/u64le/u64be`
+(`Format/Codec.lean`) over the byte arithmetic of `Basic/Prim.lean`.  `tools/tr_prim.py` regenerates
+`Gen/PrimGen.lean` from clang's typed AST of `encode_decode_utils.hpp` on every run (shifts, masks, ORs,
+casts, `ptr[k]`, the order of the two 32-bit halves, `memcpy` between `int64_t` and `double`); these
+theorems are re-checked against the regenerated definitions: the C++ primitives *are* the Spec's
+primitives.  A decoder is a function of the bytes from `ptr` to the end of the buffer; `none` is an
+access outside the buffer (the callers check the length first), which is exactly where the primitive
+codec has no value. -/
+section PrimGen
+open EngineModel.Gen.Prim EngineModel.PrimGenProofs
+
+theorem C02_prim_uint8 :
+    (∀ a r, decode_uint8 (a :: r) = some (a, r)) ∧ decode_uint8 [] = none ∧ (∀ v, encode_uint8 v = [v]) :=
+  ⟨decode_uint8_cons, rfl, fun _ => rfl⟩
+
+theorem C02_prim_int32_be :
+    (∀ x, encode_int32_be x = Prim.encU32BE x) ∧
+    (∀ a b c d r, decode_int32_be (a :: b :: c :: d :: r) = some (Prim.decU32BE a b c d, r)) ∧
+    (∀ bs, bs.length < 4 → decode_int32_be bs = none) :=
+  ⟨encode_int32_be_eq, decode_int32_be_cons, decode_int32_be_short⟩
+
+theorem C02_prim_int32_le :
+    (∀ x, encode_int32_le x = Prim.encU32LE x) ∧
+    (∀ a b c d r, decode_int32_le (a :: b :: c :: d :: r) = some (Prim.decU32LE a b c d, r)) ∧
+    (∀ bs, bs.length < 4 → decode_int32_le bs = none) :=
+  ⟨encode_int32_le_eq, decode_int32_le_cons, decode_int32_le_short⟩
+
+theorem C02_prim_int64_be :
+    (∀ x, encode_int64_be x = Prim.encU64BE x) ∧
+    (∀ a b c d e f g h r, decode_int64_be (a :: b :: c :: d :: e :: f :: g :: h :: r) =
+      some (Prim.decU64BE a b c d e f g h, r)) ∧
+    (∀ bs, decode_int64_be bs = u64be.dec bs) :=
+  ⟨encode_int64_be_eq, decode_int64_be_cons, decode_int64_be_eq⟩
+
+theorem C02_prim_int64_le :
+    (∀ x, encode_int64_le x = Prim.encU64LE x) ∧
+    (∀ a b c d e f g h r, decode_int64_le (a :: b :: c :: d :: e :: f :: g :: h :: r) =
+      some (Prim.decU64LE a b c d e f g h, r)) ∧
+    (∀ bs, decode_int64_le bs = u64le.dec bs) :=
+  ⟨encode_int64_le_eq, decode_int64_le_cons, decode_int64_le_eq⟩
+
+/-- A double travels as its 64 bits (`memcpy` to/from `int64_t`). -/
+theorem C02_prim_double :
+    (∀ x, encode_double_be x = Prim.encU64BE x) ∧ (∀ bs, decode_double_be bs = u64be.dec bs) ∧
+    (∀ x, encode_double_le x = Prim.encU64LE x) ∧ (∀ bs, decode_double_le bs = u64le.dec bs) :=
+  ⟨encode_double_be_eq, decode_double_be_eq, encode_double_le_eq, decode_double_le_eq⟩
+
+/-- `decode_extra` takes everything that is left, `encode_extra` stores it verbatim. -/
+theorem C02_prim_extra :
+    (∀ bs, decode_extra bs = some (bs, [])) ∧ (∀ extra, encode_extra extra = extra) :=
+  ⟨decode_extra_eq, encode_extra_eq⟩
+
+/-- The encoder/decoder pairs regenerated from the header are the Spec's primitive codecs. -/
+theorem C02_prim_gen_agrees :
+    (⟨encode_uint8, decode_uint8⟩ : Codec UInt8) = u8 ∧
+    (⟨encode_int32_le, decode_int32_le⟩ : Codec UInt32) = u32le ∧
+    (⟨encode_int32_be, decode_int32_be⟩ : Codec UInt32) = u32be ∧
+    (⟨encode_int64_le, decode_int64_le⟩ : Codec UInt64) = u64le ∧
+    (⟨encode_int64_be, decode_int64_be⟩ : Codec UInt64) = u64be ∧
+    (⟨encode_double_le, decode_double_le⟩ : Codec UInt64) = u64le ∧
+    (⟨encode_double_be, decode_double_be⟩ : Codec UInt64) = u64be := by
+  have mk : ∀ {α} (e : α → Bytes) (d : Bytes → Option (α × Bytes)) (c : Codec α),
+      (∀ x, e x = c.enc x) → (∀ bs, d bs = c.dec bs) → (⟨e, d⟩ : Codec α) = c := by
+    intro α e d c h1 h2
+    cases c
+    congr
+    · exact funext h1
+    · exact funext h2
+  exact ⟨mk _ _ _ encode_uint8_eq decode_uint8_eq,
+    mk _ _ _ encode_int32_le_eq decode_int32_le_eq, mk _ _ _ encode_int32_be_eq decode_int32_be_eq,
+    mk _ _ _ encode_int64_le_eq decode_int64_le_eq, mk _ _ _ encode_int64_be_eq decode_int64_be_eq,
+    mk _ _ _ encode_double_le_eq decode_double_le_eq, mk _ _ _ encode_double_be_eq decode_double_be_eq⟩
+
+/-- Pinned values (negative 32- and 64-bit patterns: the `>>` of the C++ is an arithmetic shift). -/
+example : encode_int32_be 0x81020384 = [0x81, 2, 3, 0x84] ∧ encode_int32_le 0x81020384 = [0x84, 3, 2, 0x81] ∧
+    decode_int32_le [0x84, 3, 2, 0x81, 9] = some (0x81020384, [9]) ∧
+    encode_int64_le 0x8102030405060788 = [0x88, 7, 6, 5, 4, 3, 2, 0x81] ∧
+    decode_int64_be [0x81, 2, 3, 4, 5, 6, 7, 0x88] = some (0x8102030405060788, []) ∧
+    decode_int64_be [1, 2, 3, 4, 5, 6, 7] = none := by
+  decide
+
+end PrimGen
 
 end EngineModel.Properties.C02
